@@ -629,7 +629,11 @@ func (e *Engine) doCall(s *state, fr *frame, v *ssa.Call, c *ssa.CallCommon) boo
 			return false
 		}
 	}
-	site := mk("site", fr.ctx+"@"+e.posStr(v.Pos()), 0, nil)
+	siteName := fr.ctx + "@" + e.posStr(v.Pos())
+	if n := fr.visits[fr.block.Index]; n > 1 {
+		siteName += fmt.Sprintf("~%d", n) // a later loop iteration yields fresh results
+	}
+	site := mk("site", siteName, 0, nil)
 	res := mk("call", d.callee, 0, v.Type(), append([]*Term{site, d.recv}, d.args...)...)
 	fr.env[v] = res
 	ev := Event{Kind: "call", Callee: d.callee, Fn: d.sfn, Recv: d.recv, Args: d.args, Res: res, Pos: v.Pos(), Ctx: fr.ctx, Depth: fr.depth, InFn: fr.fn}
@@ -638,7 +642,7 @@ func (e *Engine) doCall(s *state, fr *frame, v *ssa.Call, c *ssa.CallCommon) boo
 	}
 	s.emit(ev)
 	// havoc memory reachable through address arguments of opaque calls
-	if !noHavocPkgs[calleePkg(d.callee)] {
+	if !noHavocPkgs[calleePkg(d.callee)] || strings.Contains(d.callee, "scan") {
 		n := 0
 		var visit func(a *Term)
 		visit = func(a *Term) {
